@@ -148,10 +148,13 @@ def cases(tier):
         d = depth + (1 if cfgname in DEEPER else 0)
         for first in alphabet(cfgname, tier):
             out.append((cfgname, first, d, tier))
+    out += ACCEPT.cases(tier)
     return out
 
 
 def describe(case):
+    if case[0] == "accept":
+        return ACCEPT.describe(case)
     return {"config": case[0], "first": list(case[1]), "depth": case[2], "tier": case[3]}
 
 
@@ -174,7 +177,65 @@ def applicable(rules, addr, cmd):
     return out
 
 
+# ---------------------------------------------------------------------------------------------------
+# Through the websocket resource (NostrAPI.on_websocket): connections of two addresses whose handshakes overlap; every message is charged
+# to the address of the connection that sent it.
+import json  # noqa: E402
+
+from ..schedmode import SchedMode  # noqa: E402
+
+A_RULES = {"ip": {"REQ": "1/s", "EVENT": "2/s"}, "3.3.3.3": {"REQ": "-1/s"}}
+A_SCRIPTS = {
+    "two_addresses": ([("x", "1.1.1.1"), ("y", "2.2.2.2")], [("x", ["REQ", "a", {"kinds": [1], "limit": 1}]), ("x", ["REQ", "b", {"kinds": [1], "limit": 1}]),
+                                                            ("y", ["REQ", "c", {"kinds": [1], "limit": 1}])],
+                      {("x", "a"): True, ("x", "b"): False, ("y", "c"): True}),
+    "exempt_and_limited": ([("x", "3.3.3.3"), ("y", "2.2.2.2")], [("y", ["REQ", "a", {"kinds": [1], "limit": 1}]), ("x", ["REQ", "b", {"kinds": [1], "limit": 1}]),
+                                                                 ("x", ["REQ", "c", {"kinds": [1], "limit": 1}]), ("y", ["REQ", "d", {"kinds": [1], "limit": 1}])],
+                           {("y", "a"): True, ("x", "b"): True, ("x", "c"): True, ("y", "d"): False}),
+}
+
+
+def _a_build(name, backend, policy):
+    from ..explorer import Scenario
+
+    conns, script, expect = A_SCRIPTS[name]
+
+    def connect(w, cn, addr):
+        return w.connect_via_resource(cn, addr)
+
+    return Scenario("%s%s|%s" % (name, "@fair" if policy == "fair" else "", backend), backend, conns, script, config={"message_timeout": 1e300},
+                    storage_options={"stats_interval": 1e15}, rate_limits=A_RULES, connect=connect, horizon=0.5, allow_timer_deviation=False, policy=policy)
+
+
+def _a_judge(x, name, backend, viol, cid, sig):
+    conns, script, expect = A_SCRIPTS[name]
+    for (cn, sid), want in expect.items():
+        c = x.world.conns[cn]
+        served = False
+        limited = False
+        for k, _, p in c.transcript:
+            if k == "send":
+                try:
+                    m = json.loads(p)
+                except ValueError:
+                    continue
+                if m[0] == "EOSE" and m[1] == sid:
+                    served = True
+        notices = sum(1 for k, _, p in c.transcript if k == "send" and "rate-limited" in p)
+        if want and not served:
+            viol.append({"case": cid, "clause": "refused-only-when-a-rule-is-full", "sig": sig + "|%s|%s" % (cn, sid),
+                         "detail": "%s's REQ %s was not served although its own address has not used up any rule (messages are charged per connection address)" % (cn, sid)})
+        if not want and served:
+            viol.append({"case": cid, "clause": "never-more-than-n-per-window", "sig": sig + "|%s|%s" % (cn, sid),
+                         "detail": "%s's REQ %s was served although its address had already used its budget in this instant (%d rate-limited notices)" % (cn, sid, notices)})
+
+
+ACCEPT = SchedMode(A_SCRIPTS, _a_build, _a_judge, backends=("kv",), tag="accept")
+
+
 def run_case(case):
+    if case[0] == "accept":
+        return ACCEPT.run(case)
     if case[0] == "__web__":
         return run_web(case)
     cfgname, first, depth, tier = case
@@ -352,13 +413,18 @@ def coverage(tier, agg):
                 "address incl. exemption -1, IPv6 specific address, rules for another command); time steps {0,0.5,1,1.5,59.5,60.5,(3540,3600.5)} s; "
                 "depth %d; oracle = sliding-window reference over the admitted history (admit forbidden if a rule has n in the half-open window, "
                 "refusal justified only if a rule has n in the closed window, exactly-one-interval-apart is free), deque length bounded by the "
-                "configured rates; non-trivial case = shard in which both decisions occur" % (len(CONFIGS), 4 if tier == "quick" else 5),
+                "configured rates; non-trivial case = shard in which both decisions occur; accept: connections of two addresses through the websocket "
+                "resource (origin check, ACCEPT limit, ws.accept(), start_client) with overlapping handshakes, every schedule with <= 1 deviation from both "
+                "base schedules: each REQ is charged to the address of its own connection" % (len(CONFIGS), 4 if tier == "quick" else 5),
         "configs": sorted(CONFIGS),
     }
 
 
 def replay(desc):
-    r = run_case((desc["config"], tuple(desc["first"]), desc["depth"], desc.get("tier", "quick")))
+    if desc.get("mode") == "accept":
+        r = run_case(ACCEPT.from_desc(desc))
+    else:
+        r = run_case((desc["config"], tuple(desc["first"]), desc["depth"], desc.get("tier", "quick")))
     for v in r["viol"]:
         print(v["clause"], v["detail"])
     return r["viol"]
